@@ -54,6 +54,8 @@ class _Writer:
         if isinstance(data, str) or data is None or isinstance(data, (int, float, list, dict, tuple)):
             # a binary file refuses anything that is not bytes-like (the file is already truncated by then)
             raise TypeError("a bytes-like object is required, not '%s'" % type(data).__name__)
+        if isinstance(data, memoryview) and not data.contiguous:
+            raise BufferError("memoryview: underlying buffer is not C-contiguous")
         self.parts.append(data)
         self._flush()
         return len(data)
